@@ -82,8 +82,20 @@ def pred_f22(case, record, exp=None):
     return any(c["res"] == 4 for c in calls)
 
 
-BITS = []   # F16, F17, F21, F22 are all fixed in /repo: the model is the repaired algorithm, every disagreement is a violation
-PRED_BY_ID = {}
+BITS = [(16, "F23")]   # F16, F17, F21, F22 are fixed in /repo (their deviation ids no longer explain anything)
+def pred_f23(case, record, exp=None):
+    """a JS exception that arrives as a Go panic unwinds a for-of whose iterator's JS return() is hit by an uncatchable error"""
+    if not any(n["t"] == "forof" and n.get("jr") for n in _all_nodes(case)):
+        return False
+    if not _uncatchable_possible(case):
+        return False
+    calls = _calls(record)
+    if calls is None:
+        return True
+    return any(c["res"] in (2, 3, 4) for c in calls) and any(c["idle"][5] > 0 or c["idle"][6] > 0 for c in calls)
+
+
+PRED_BY_ID = {"F23": pred_f23}
 
 
 # ---------------------------------------------------------------------------------------------------
@@ -288,7 +300,7 @@ CFG = {
         "a native function always re-panics an uncatchable error returned to it by Callable/RunString",
         "the implementation is tied to the model only on the generated histories (correspondence), not by proof",
     ],
-    "predicates": {},
+    "predicates": {"C03.f23": pred_f23},
     "manifest": {
         "text": ("proof: for every execution tree (JS frames, native frames calling back through Callable / accessor Get / "
                  "re-entrant RunProgram / Try / ForOf, try regions, iterator regions, generator and async resumptions, promise "
